@@ -2127,9 +2127,14 @@ void Validator::ValidatorImpl::validateMathMLElementsChildrenAndSiblings(const X
     } else if (node->isMathmlElement("diff")) {
         auto parentNode = node->parent();
 
-        hasTwoMathmlSiblings(parentNode, node, component)
+        if (hasTwoMathmlSiblings(parentNode, node, component)
             && isFirstMathmlSibling(parentNode, node, component)
-            && hasFirstMathmlSiblingWithName(parentNode, node, "bvar", component);
+            && hasFirstMathmlSiblingWithName(parentNode, node, "bvar", component)
+            && !mathmlChildNode(parentNode, 2)->isMathmlElement("ci")) {
+            addMathmlIssue("Math has a 'diff' element which second sibling is not a 'ci' element.",
+                           Issue::ReferenceRule::MATH_MATHML,
+                           component);
+        }
 
         // Trigonometric operators.
 
